@@ -301,12 +301,14 @@ class MemBus(Bus):
     """Bus whose single fault is addressed by QUERY index (the q-th command that expects an answer).
     fault = (q, kind, x): kind 'silence' | 'garble' | 'replace' (answer XOR x, only if there is one answer)."""
 
-    def __init__(self, units, fault=None, max_commands=2000):
+    def __init__(self, units, fault=None, max_commands=2000, watch=None):
         super().__init__(units, max_commands=max_commands)
         self.fault = fault
         self.q = 0
         self.injected = None       # (query index, kind) once the fault has changed an answer
         self.fault_step = None
+        self.watch = watch         # unit whose memory-access logs say what the faulted command was
+        self.fault_access = None   # ("read", (bank, loc, answer)) | ("write", (bank, loc, data, executed)) | ("other", None)
 
     def transact(self, cmd):
         from dali import frame
@@ -318,12 +320,20 @@ class MemBus(Bus):
         bits, value = len(f), f.as_integer
         if bits == 16 and cmd.devicetype != 0:
             self.put(16, 0xC100 | (cmd.devicetype & 0xFF), False)
+        wu = self.watch
+        nr, nw = (len(wu.read_log), len(wu.mem_write_log)) if wu is not None else (0, 0)
         answers = self.put(bits, value, bool(cmd.sendtwice))
         if cmd.response is None:
             return None
         q = self.q
         self.q += 1
         if self.fault is not None and self.fault[0] == q:
+            if wu is not None and len(wu.read_log) > nr:
+                self.fault_access = ("read", wu.read_log[-1])
+            elif wu is not None and len(wu.mem_write_log) > nw:
+                self.fault_access = ("write", wu.mem_write_log[-1])
+            else:
+                self.fault_access = ("other", None)
             kind, x = self.fault[1], self.fault[2] if len(self.fault) > 2 else None
             if kind == "silence":
                 if answers:
@@ -406,7 +416,7 @@ def case_value(case):
     name = row["cls"]
     w = World(row["bankobj"], case["addr"], case["short"], case["image"], case["last"], case["holes"], case.get("lock"))
     fault = tuple(case["fault"]) if case.get("fault") else None
-    bus = MemBus(w.units, fault=fault, max_commands=40 + 4 * row["width"])
+    bus = MemBus(w.units, fault=fault, max_commands=40 + 4 * row["width"], watch=w.target)
     where = "read of " + _where(case)
     out = []
     outcome, val, err = None, None, None
@@ -427,7 +437,10 @@ def case_value(case):
     silenced, garbled = set(), False
     if bus.injected:
         q, kind = bus.injected
-        b, loc, _ = w.target.read_log[q] if q < len(w.target.read_log) else (None, None, None)
+        if bus.fault_access[0] != "read" or bus.fault_access[1][0] != w.spec["bank"]:
+            LAST_OUTCOME[0] = "outcome:fault-on-a-query-that-is-not-a-read"     # not a fault the statement names
+            return out
+        b, loc, _ = bus.fault_access[1]
         if kind == "silence":
             silenced.add(loc)
         else:
@@ -478,7 +491,7 @@ def case_bank(case):
     w = World(bankobj, case["addr"], case["short"], case["image"], last, holes, case.get("lock"), drift=drift) \
         if drift else probe
     fault = tuple(case["fault"]) if case.get("fault") else None
-    bus = MemBus(w.units, fault=fault, max_commands=300)
+    bus = MemBus(w.units, fault=fault, max_commands=300, watch=w.target)
     where = "read_all(use_latch=%s%s) of %s" % (use_latch, ", live memory drifting" if drift else "", _where(case))
     out = []
     outcome, val, err = None, None, None
@@ -498,7 +511,10 @@ def case_bank(case):
     silenced, garbled_loc, garbled = set(), None, False
     if bus.injected:
         q, kind = bus.injected
-        b, loc, _ = w.target.read_log[q] if q < len(w.target.read_log) else (None, None, None)
+        if bus.fault_access[0] != "read" or bus.fault_access[1][0] != w.spec["bank"]:
+            LAST_OUTCOME[0] = "outcome:fault-on-a-query-that-is-not-a-read"     # not a fault the statement names
+            return out
+        b, loc, _ = bus.fault_access[1]
         if kind == "silence":
             silenced.add(loc)
         else:
@@ -826,7 +842,7 @@ def run(ctx):
             shards.append((_shard_banks, (b, list(range(0, 128)), s, q, 0)))
             shards.append((_shard_banks, (b, list(range(128, NLOC)), s, q, 1)))
     for k in range(16):
-        shards.append((_shard_hyp, (s * 1000 + k, 150 if q else 4000)))
+        shards.append((_shard_hyp, (s * 1000 + k, 600 if q else 6000)))
     ctx.pmap(_dispatch, shards)
     ctx.result.exhaustive = False
 
